@@ -353,6 +353,11 @@ class _MultiplicationFunctionMaker(_OperationFunctionMaker):
         first_func = self._first_operand.func(input_value)
         second_func = self._second_operand.func(input_value)
         second_jac = self._second_operand._jac(input_value)
+        # The i-th output value scales the i-th row of the Jacobian matrices.
+        if isinstance(first_func, ndarray) and second_jac.ndim == 2:
+            first_func = first_func.reshape((-1, 1))
+        if isinstance(second_func, ndarray) and first_jac.ndim == 2:
+            second_func = second_func.reshape((-1, 1))
 
         if self._operator == numpy.multiply:
             return first_jac * second_func + second_jac * first_func
